@@ -620,6 +620,24 @@ def r_occur(ctx, f, A, chunk_lo, Ea):
             elif is_call(src, 'builtins.reversed'):
                 okrev = True
                 r_sym = ('idx', src, prev[2])
+        forward = prev is not None and prev[0] == 'iter' and not okrev and prev[1][0] in ('iter', 'item', 'v')
+        if prev is not None and prev[0] == 'sub' and prev[2][0] != 'slice':
+            # marker[-1 - r] / marker[len(marker) - 1 - r] with r running over range(len(marker)): the same reversed visit
+            ia = affine(prev[2])
+            own_len = ('call', ('g', 'builtins.len'), (prev[1],), ())
+            if ia is not None:
+                rs = [x for x in ia if x != 1 and x != own_len and
+                      ((x[0] == 'iter' and is_call(x[1], 'builtins.range') and x[1][2] == (own_len,)) or
+                       (x[0] == 'idx' and x[1] == prev[1]))]
+                if len(rs) == 1 and ia.get(rs[0]) == -1 and ia.get(1, 0) == -1 and ia.get(own_len, 0) in (0, 1) and \
+                        set(ia) <= {rs[0], 1, own_len}:
+                    okrev, r_sym = True, rs[0]
+                elif len(rs) == 1 and ia.get(rs[0]) == 1 and set(ia) <= {rs[0], 1} and ia.get(1, 0) == 0:
+                    forward = True
+        if not okrev and not forward:
+            run.undecided('R-TILE', f, 'T5c:look-back-reversed', nd.lineno,
+                          'how previous_index (%s) walks the look-back marker is not recognised' % (show(prev)[:60] if prev else None))
+            continue
         run.check(okrev, 'R-TILE', f, 'T5c:look-back-reversed', nd.lineno,
                   'recalled vertices are visited from the newest to the oldest',
                   'previous_index iterates %s: the look-back marker must be traversed in reverse so that recall r is the '
@@ -1256,19 +1274,25 @@ def r_recomb(ctx):
             n_, comp = joined
             item_, gens = comp[2], comp[3]
             gen = gens[0][0] if len(gens) == 1 and not gens[0][1] else None
-            okz = gen is not None and is_call(gen, 'builtins.zip') and len(gen[2]) == 2 and gen[2][0][0] == 'v' and \
-                gen[2][0][1] == seg and gen[2][1] == frag_iter
-            run.check(okz, 'R-RECOMB', f, 'recombination:range(len(segments)-1)', n_.lineno,
-                      'one fragment between consecutive segments (zip(segments, fragments))',
-                      'the candidate is joined over %s, not zip(segments, fragments of this combination)' % show(gen)[:70] if gen else
-                      'the candidate is joined over several generators', inputs='strands with detected errors')
-            okb = okz and item_[0] == 'bin' and item_[1] == '+' and item_[2][0] == 'iter' and item_[2][1] == gen[2][0] and \
-                item_[3][0] == 'iter' and item_[3][1] == frag_iter
-            run.check(okb, 'R-RECOMB', f, 'recombination:segment-then-fragment', n_.lineno, 'segment + fragment of the same position',
-                      'the joined pieces are %s, not segment + fragment' % show(item_)[:70], inputs='strands with detected errors')
-            run.check(tail is not None, 'R-RECOMB', f, 'recombination:last-segment-appended', nd.lineno,
-                      'segments[-1] is appended to the joined candidate',
-                      'the last segment is not appended to the joined candidate: every candidate loses its tail', inputs='every strand')
+            def segs(x):
+                return (x[0] == 'v' and x[1] == seg) or \
+                    (x[0] == 'sub' and x[1][0] == 'v' and x[1][1] == seg and x[2] == ('slice', ('c', None), ('c', -1), ('c', None)))
+            okz = gen is not None and is_call(gen, 'builtins.zip') and len(gen[2]) == 2 and segs(gen[2][0]) and gen[2][1] == frag_iter
+            swapped = gen is not None and is_call(gen, 'builtins.zip') and len(gen[2]) == 2 and segs(gen[2][1]) and gen[2][0] == frag_iter
+            _tri(run, okz or swapped, False, 'R-RECOMB', f, 'recombination:range(len(segments)-1)', n_.lineno,
+                 'one fragment between consecutive segments (zip(segments, fragments))', '', inputs='strands with detected errors')
+            sg, fg = (gen[2][0], gen[2][1]) if okz else ((gen[2][1], gen[2][0]) if swapped else (None, None))
+            okb = sg is not None and item_[0] == 'bin' and item_[1] == '+' and item_[2][0] == 'iter' and item_[2][1] == sg and \
+                item_[3][0] == 'iter' and item_[3][1] == fg
+            witb = sg is not None and item_[0] == 'bin' and item_[1] == '+' and item_[2][0] == 'iter' and item_[2][1] == fg and \
+                item_[3][0] == 'iter' and item_[3][1] == sg
+            _tri(run, okb, witb, 'R-RECOMB', f, 'recombination:segment-then-fragment', n_.lineno, 'segment + fragment of the same position',
+                 'the joined pieces are %s: the fragment is put before the segment' % show(item_)[:70], inputs='strands with detected errors')
+            anywhere_ = any(any(x[0] == 'sub' and x[1][0] == 'v' and x[1][1] == seg and x[2] == ('c', -1) for x in walk_term(rt))
+                            for n2, _r, rt in ctx.root_terms(f) if rt is not None and scan not in n2.loops and n2.id != scan)
+            _tri(run, tail is not None, not anywhere_, 'R-RECOMB', f, 'recombination:last-segment-appended', nd.lineno,
+                 'segments[-1] is appended to the joined candidate',
+                 'the last segment is never read after the scan: every candidate loses its tail', inputs='every strand')
             continue
         found += 1
         lp = inner[0]
@@ -1290,9 +1314,11 @@ def r_recomb(ctx):
             elif len(lens) == 1 and lens[0][2][0] == frag_iter and aff_eq(a, {lens[0]: 1}):
                 form = 'index'
         elif is_call(lt, 'builtins.zip') and len(lt[2]) == 2 and not lt[3]:
-            if is_seg(lt[2][0]) and lt[2][1] == frag_iter:
+            def seg_or_all_but_last(x):
+                return is_seg(x) or (x[0] == 'sub' and is_seg(x[1]) and x[2] == ('slice', ('c', None), ('c', -1), ('c', None)))
+            if seg_or_all_but_last(lt[2][0]) and lt[2][1] == frag_iter:
                 form = 'zip'
-            elif is_seg(lt[2][1]) and lt[2][0] == frag_iter:
+            elif seg_or_all_but_last(lt[2][1]) and lt[2][0] == frag_iter:
                 form = 'zip-swapped'
         _tri(run, form is not None, wit is not None, 'R-RECOMB', f, 'recombination:range(len(segments)-1)', lp.lineno,
              'one fragment between consecutive segments',
@@ -1327,7 +1353,7 @@ def r_recomb(ctx):
                                 pos = z[2]
                                 return 'seg' if (pos == 0) == (form == 'zip') else 'frag'
                             if z[0] == 'iter' and z[2] == lp.id:      # elements of a zipped source
-                                return 'seg' if is_seg(z[1]) else ('frag' if z[1] == frag_iter else None)
+                                return 'seg' if seg_or_all_but_last(z[1]) else ('frag' if z[1] == frag_iter else None)
                             return None
                         kx, ky = which(x), which(y)
                         if kx == 'seg' and ky == 'frag':
@@ -1425,7 +1451,14 @@ def r_tile_clamp(ctx):
             direct = x[1][0] == 'iter' and x[1][1][0] == 'v' and x[1][1][1] in marker_lists
             viazip = x[1][0] == 'item' and x[1][1][0] == 'iter' and is_call(x[1][1][1], 'builtins.zip', 'builtins.enumerate') and src
             if (direct or viazip) and x[2] != ('slice', ('c', None), ('c', None), ('c', -1)):
-                hits.append((nd.lineno, show(x)[:60]))
+                # an index drawn from range(len(marker)) (possibly mirrored: -1 - i, len - 1 - i) stays inside the marker
+                own_len = ('call', ('g', 'builtins.len'), (x[1],), ())
+                bounded = any(y[0] in ('iter', 'idx') and (y[0] == 'idx' and y[1] == x[1] or
+                                                            y[0] == 'iter' and is_call(y[1], 'builtins.range') and
+                                                            any(z == own_len for z in walk_term(y[1])))
+                              for y in walk_term(x[2]))
+                if not bounded:
+                    hits.append((nd.lineno, show(x)[:60]))
     run.check(not hits, 'R-CLAMP', f, 'marker-iterated-not-indexed', hits[0][0] if hits else forms['marker'][1],
               'the look-back marker is only iterated',
               'the look-back marker is indexed by position (%s): for an error inside the first window the marker holds fewer than k '
